@@ -262,7 +262,9 @@ def save(laser: Laser, path: Path) -> None:
         for name in laser.data.dtype.names:
             io.textimage.save(path.with_stem(path.stem + "_" + name), laser.data[name])
     elif path.suffix.lower() == ".npz":
-        io.npz.save(path, laser)
+        # pass an open file, numpy appends '.npz' to names that do not end with it (e.g. '.NPZ')
+        with path.open("wb") as fp:
+            io.npz.save(fp, laser)
     elif path.suffix.lower() == ".vtk":
         spacing = (
             laser.config.get_pixel_width(),
